@@ -479,8 +479,11 @@ def run(ctx):
 
 def run_replay_file(ctx, bindir):
     """./check <id> --replay <file>: re-execute (TLC behaviours) or re-judge (recorded events) one scenario"""
-    with open(ctx.replay) as f:
-        rp = json.load(f)
+    try:
+        with open(ctx.replay) as f:
+            rp = json.load(f)
+    except (OSError, ValueError) as e:
+        raise C.ToolError("cannot read replay file %s: %s" % (ctx.replay, e))
     sc = rp.get("scenario") or {}
     if "delegation_table" in sc:
         container_model(ctx)          # TLC counterexample of the container model: check the current source again
